@@ -61,6 +61,8 @@ impl SubscriptionManager {
             state.create_subscription(info, topic.clone(), self.push_registry.clone(), delegate)?
         };
 
+        #[cfg(deltio_verif)]
+        crate::verif::point("manager.create.attach").await;
         topic
             .attach_subscription(subscription.clone())
             .await
